@@ -277,7 +277,8 @@ def run_roots_shard(job):
                     from tucan.canonicalization import canonicalize_molecule
                     from tucan.serialization import serialize_molecule
 
-                    for h in (gc, nx.relabel_nodes(g, {0: n - 1, n - 1: 0}, copy=True)):
+                    for h in (gc, nx.relabel_nodes(g, {0: n - 1, n - 1: 0}, copy=True),
+                              nx.relabel_nodes(g, {k: 2 * k + 3 for k in range(n)}, copy=True)):  # labels not 0..n-1
                         try:
                             s_d = serialize_molecule(canonicalize_molecule(h))
                         except Exception as ex:
@@ -505,15 +506,15 @@ def run(prop: str, tier: str) -> int:
         from . import zoo
 
         zoo.run_all(rep, prop, tier)
-    if prop == "C05":
+    if prop in ("C05", "C03"):
         from tucan.io import graph_from_molfile_text
 
         for name, text, cols, bonds in zero_attribute_texts():
             s = tucan_of(graph_from_molfile_text(text))
             rep.add(states=1, transitions=1, traces_validated_against_impl=1, zero_attribute_texts=1)
-            msg = check_c05(s, len(cols), cols, bonds)
+            msg = check_c05(s, len(cols), cols, bonds) if prop == "C05" else check_c03(s, len(cols), cols, bonds, None)
             if msg:
-                rep.violation("C05|explicit-zero|" + name.split()[0], {
+                rep.violation(f"{prop}|explicit-zero|" + name.split()[0], {
                     "kind": "string-of-molfile", "n": len(cols), "molfile": text, "tucan": s,
                     "expect_cols": cols, "expect_bonds": bonds, "summary": f"{name}: {s!r}: {msg}"})
     rep.add(spaces=[f"n={n} alphabet={len(a)} maxdev={d}" for n, a, d in spaces], rule=RULES[prop])
